@@ -95,6 +95,26 @@ func attacks(c *vf.Ctx, x *chain.Explorer, w *chain.World, path []string) {
 		if v2ok {
 			us = append(us, useGen{"v2spend", func(w *chain.World, tag byte) (chain.Use, bool) { return w.UseV2SC(p, tag), true }, v2app})
 		}
+		if v1ok {
+			// the output spent entirely as the miner fee of a storage proof transaction (the only thing besides proofs
+			// such a transaction may carry): a spend travelling with another feature
+			for _, e := range w.Ref.Live(chain.KFC) {
+				fce, ok := w.Store.FC[types.FileContractID(e.ID)]
+				if !ok || !(fce.FileContract.WindowStart <= h && h < fce.FileContract.WindowEnd) {
+					continue
+				}
+				us = append(us, useGen{"v1spend-as-proof-fee", func(w *chain.World, tag byte) (chain.Use, bool) {
+					cur, live := w.Store.FC[fce.ID]
+					if !live {
+						return chain.Use{}, false
+					}
+					return w.UseV1SCAsProofFee(p, cur, cur.FileContract)
+				}, func(n *consensus.Network, hh uint64) bool {
+					return v1app(n, hh) && fce.FileContract.WindowStart <= hh && hh < fce.FileContract.WindowEnd
+				}})
+				break
+			}
+		}
 		targets = append(targets, target{"sc-v1addr", us, nil})
 	}
 	// outputs whose unlock conditions need no signature at all (authorisation-shape variant of the same attack)
